@@ -102,7 +102,27 @@ def warm_tables():
     iter_lines()
     ops_of_class(None)
     ops_by_iter_line()
+    twin_classes()
     gwrite_tables()
+
+
+_twins = {}
+
+
+def twin_classes():
+    """class key -> keys of the pool classes that have the same class name in another module (or factory call)."""
+    if not _twins:
+        from sim.pool import catalog as C
+
+        by_name = {}
+        for ck, cls in C.CLASSES.items():
+            by_name.setdefault(cls.__name__, []).append(ck)
+        for cks in by_name.values():
+            if len(cks) > 1:
+                for ck in cks:
+                    _twins[ck] = [o for o in cks if o != ck]
+        _twins.setdefault("", [])
+    return _twins
 
 
 def gen_directed(seed, rng):
@@ -135,6 +155,17 @@ def gen_directed(seed, rng):
         b = rng.choice(index[h])
     else:
         b = a
+    # a class of the same name in another module: whatever is memoised by name or by annotation text is shared
+    # between the two although it means another class in each
+    twins = twin_classes().get(core.Z.op_by_name[a].ck, ())
+    if twins and rng.random() < 0.5:
+        twin_ops = [nm for ck in twins for nm in ops_of_class(ck)]
+        same_kind = [nm for nm in twin_ops if core.Z.op_by_name[nm].kind == core.Z.op_by_name[a].kind]
+        if twin_ops:
+            b = rng.choice(same_kind or twin_ops)
+            adopted = [loc for loc in first if "/xsdata/" not in loc and not loc.startswith(("formats/", "utils/", "models/"))]
+            if adopted and rng.random() < 0.7:
+                hot = rng.sample(adopted, min(len(adopted), rng.choice([1, 2, 3])))
     n = rng.choice([2, 2, 2, 3, 3, 4])
     threads = [[a], [b]]
     pool = same_doc or index.get(h) or [a]
